@@ -14,6 +14,7 @@ from harness import common, parsing, rxsuite
 from harness.common import Model, canon
 
 RUNNERS = ["RX"]
+FACTS = ("tables", "parser", "pin_c01")
 
 RULE = ("per format: every sequence of the format's token alphabet up to the tier's length bound, "
         "plus seeded random sequences mixing tokens, exotic line-break/astral characters and "
